@@ -71,7 +71,11 @@ def find_guards(fn):
     for i, st in enumerate(fn.body):
         if isinstance(st, ast.If) and not st.orelse and len(st.body) == 1 and isinstance(st.body[0], ast.Return):
             names = {n.id for n in ast.walk(st.test) if isinstance(n, ast.Name)}
-            if _relates_input_to_state(st.test, selfname):
+            writes_after = any(isinstance(n, ast.Attribute) and isinstance(n.ctx, ast.Store) and isinstance(n.value, ast.Name)
+                               and n.value.id == selfname for later in fn.body[i + 1:] for n in ast.walk(later))
+            # a key test relating an input to stored state, or any state-dependent early return of a method that goes on to
+            # rewrite the object's state (a regenerating method)
+            if _relates_input_to_state(st.test, selfname) or (_mentions_self_state(st.test, selfname) and writes_after and params):
                 g = Guard(fn, st, i)
                 g.compared_params = names & set(params)
                 out.append(g)
